@@ -10,7 +10,7 @@ RULE = ("cases = runs of the REAL MeshEdgebreakerDecoderImpl<TD>::DecodeConnecti
         "with the real traversal decoder wrapped to record symbols / split events / start-face bits; (2) hostile scripts through a "
         "scripted traversal decoder: ALL symbol lists up to length 5 (6 in thorough; the longest length sampled) with no event and with every single "
         "L/R/E->S split event, mutations of the valid scripts (symbols, events, bits, declared counts), random scripts, valid prefixes cut at a random point and extended by hostile symbols chosen (with the real decoder as oracle) so that the symbol loop stays alive, vertex-budget overflow scripts; about a "
-        "quarter go through the real header parser DecodeConnectivity() (kind full), the rest call DecodeConnectivity(int) on a fresh "
+        "quarter go through the real header parser (also with num_attribute_data = 1..3 and hostile attribute-seam bits: kind fulla compares the corner table, kind apc compares AssignPointsToCorners' deduplication result - num_points and all face indices - with the model, given the attribute corner tables the real decoder built) DecodeConnectivity() (kind full), the rest call DecodeConnectivity(int) on a fresh "
         "table with arbitrary event lists (kind core).  Each script runs in a forked child with a 20 s watchdog: crash / sanitizer "
         "report / hang / accepted-but-invalid table are '!' lines.  A case is distinct by its text; non-trivial = accepted")
 
